@@ -166,7 +166,7 @@ func allowedRecordGuard(info *types.Info, gd guard, errVar types.Object, slot *t
 
 // ruleEF2: a recorded reader error is never replaced by a syntax error.
 func ruleEF2() Rule {
-	return Rule{ID: "EF2", Kind: "must", Floor: 4,
+	return Rule{ID: "EF2", Kind: "must", Floor: 3,
 		Doc: "every store into the lexer's error slot is reached only on paths where the slot was tested to be nil or to already hold a parser.Error, so a recorded reader error is sticky; ParseCommands returns that slot (EF3)",
 		Run: func(c *Ctx, rr *core.RuleResult) {
 			slot := c.fieldVar("parser", "lexer", "err")
@@ -253,7 +253,13 @@ func ruleEF2() Rule {
 						key = fmt.Sprintf("%s #%d", key, n+1)
 					}
 					storeSeq[f.Name]++
-					if facts[as]&good != 0 {
+					byGuard := false
+					for _, gd := range guardsOf(c.P, as, nil) {
+						if gd.pos && slotEmptyOrSyntax(info, gd.cond, slot) {
+							byGuard = true
+						}
+					}
+					if facts[as]&good != 0 || byGuard {
 						rr.OK(f, key, as.Pos(), "sticky", "on every path the slot was tested to be nil or a parser.Error first")
 					} else {
 						rr.Bad(f, key, as.Pos(), "a syntax error can overwrite a recorded reader error here (some path reaches the store without the slot having been tested to be nil or a parser.Error): the read failure is reported as a made-up syntax error")
@@ -329,7 +335,7 @@ func ruleEF2() Rule {
 
 // ruleEF6: syntax errors are located.
 func ruleEF6() Rule {
-	return Rule{ID: "EF6", Kind: "must", Floor: 4,
+	return Rule{ID: "EF6", Kind: "must", Floor: 2,
 		Doc: "every parser.Error value is built with the lexer's name (or a copied Error's) and a position expression that is not the zero literal; Lex records the delivered token's position on every token path",
 		Run: func(c *Ctx, rr *core.RuleResult) {
 			for _, f := range c.funcsOfPkg("parser", false) {
@@ -772,7 +778,18 @@ func slotEmptyOrSyntax(info *types.Info, cond ast.Expr, slot *types.Var) bool {
 			return true
 		}
 	}
-	return false
+	return isSlotSyntaxAssert(info, cond, slot)
+}
+
+// isSlotSyntaxAssert recognises the guard `slot.(parser.Error)` that guardsOf
+// synthesises for a `case Error:` clause of a type switch on the slot.
+func isSlotSyntaxAssert(info *types.Info, cond ast.Expr, slot *types.Var) bool {
+	ta, ok := ast.Unparen(cond).(*ast.TypeAssertExpr)
+	if !ok || ta.Type == nil || core.FieldOf(info, ta.X) != slot {
+		return false
+	}
+	tv, ok := info.Types[ta.Type]
+	return ok && strings.HasSuffix(namedTypeName(tv.Type), ".Error")
 }
 
 // isOkOfSlotAssert reports whether v is defined as the second result of
